@@ -441,6 +441,23 @@ def render_fn(doc, it, parent, d, relfile, report, twin=False):
             ed.replace(ms, me, "vstd::pervasive::unreached()")
             rw["R6"] = rw.get("R6", 0) + 1
         # matches!, vec!, etc. are left as they are
+    # R15: Verus rejects `continue` inside a for-loop.  `for .. { ..; if c { A; continue; } B }`  ==>  `for .. { ..; if c { A } else { B } }`
+    for lp in body["loops"]:
+        if lp["kind"] != "for":
+            continue
+        inside = [st for st in body["stmts"] if lp["body_open"] < st["span"][0] and st["span"][1] < lp["span"][1]]
+        for c in [st for st in inside if st["norm"] == "continue;"]:
+            holder = [st for st in inside if st["block_open"] == lp["body_open"] and st["span"][0] < c["block_open"] < st["span"][1]
+                      and st["norm"].startswith("if ")]
+            last_in_block = all(o["span"][1] <= c["span"][0] for o in inside if o["block_open"] == c["block_open"] and o is not c)
+            # the block holding `continue;` must be the then-block of an else-less `if` that is a direct statement of the loop body
+            tail = src[c["span"][1]:holder[0]["span"][1]].decode() if holder else ""
+            if len(holder) != 1 or not last_in_block or tail.strip() != "}":
+                raise SpliceError("%s: `continue` in a for-loop outside the supported shape (R15)" % it["path"])
+            ed.replace(c["span"][0], c["span"][1], "")
+            ed.insert(holder[0]["span"][1], " else {", 4)
+            ed.insert(lp["span"][1] - 1, "}\n", 5)
+            rw["R15"] = rw.get("R15", 0) + 1
     # R14
     if d.boolops:
         for k, op in enumerate(body["assignops"]):
